@@ -292,7 +292,7 @@ func (c *FnCtx) indexAddr(st *State, x *ssa.IndexAddr) bool {
 	switch t := x.X.Type().Underlying().(type) {
 	case *types.Slice:
 		c.safety(st, x, "index", fmt.Sprintf("(and (<= 0 %s) (< %s %s))", iv.S, iv.S, xv.Len()), "slice index in range")
-		a := &Addr{Space: "M", Key: elemKey(t.Elem()), Idx: []string{xv.Base(), "(+ " + xv.Off() + " " + iv.S + ")"}, T: t.Elem()}
+		a := &Addr{Space: "M", Key: elemKey(t.Elem()), Idx: []string{xv.Base(), slot(xv.Off(), iv.S)}, T: t.Elem()}
 		st.env[x] = Val{T: x.Type(), K: KRef, S: "0", A: a}
 	case *types.Pointer:
 		at := t.Elem().Underlying().(*types.Array)
@@ -615,6 +615,10 @@ func (c *FnCtx) makeInterface(st *State, v Val, it types.Type) Val {
 	a := &Addr{Space: "C", Key: "box:" + typeName(v.T), Idx: []string{r}, T: v.T}
 	c.store(st, a, v)
 	st.assume(eq("(dyntype "+r+")", tid))
+	if c.boxed == nil {
+		c.boxed = map[string]Val{}
+	}
+	c.boxed[r] = v
 	return Val{T: it, K: KIface, S: r}
 }
 
